@@ -57,6 +57,11 @@ func run(r *core.Run) {
 	}
 	r.Section(fmt.Sprintf("pool=small(%d decls) k=3", len(small)))
 	enumerate(r, small, "small", 3)
+	for _, th := range []string{"lists", "disjunctions", "bounds", "closedness"} {
+		tp := gen.Theme(th)
+		r.Section(fmt.Sprintf("theme=%s(%d decls) k=3", th, len(tp)))
+		enumerate(r, tp, "theme:"+th, 3)
+	}
 	if r.Thorough() {
 		r.Section(fmt.Sprintf("pool=order(%d decls) k=3", len(pool)))
 		enumerate(r, pool, profile, 3)
@@ -90,6 +95,9 @@ func replay(r *core.Run, raw json.RawMessage) {
 		return
 	}
 	pool := gen.Pool(c.Profile)
+	if th, ok := strings.CutPrefix(c.Profile, "theme:"); ok {
+		pool = gen.Theme(th)
+	}
 	var ds []gen.Decl
 	for _, j := range c.Decls {
 		ds = append(ds, pool[j])
